@@ -67,6 +67,7 @@ def run(ctx):
         elif mode < 0.45:    # identical residues under different names
             recs = [(n, recs[0][1]) if rng.random() < 0.5 else (n, s) for n, s in recs]
         t = rng.choice([3, 4, 5]) if kind == "protein" else rng.choice([0, 1, 2, 5])
+        t = gen.fit_type(t, kind, recs)
         th = rng.choice([1, 8])
         perms = [list(recs)]
         p = list(recs); p.reverse(); perms.append(p)
